@@ -637,6 +637,19 @@ def _autoshapes(ctx, prog, S, M):
                                               iter=e.args[1], ifs=[], is_async=0)]), e)
             ast.fix_missing_locations(e)
         src_txt = ast.unparse(e)
+        if isinstance(e, ast.Attribute) and isinstance(e.value, ast.Call) and dotted(e.value.func):
+            # `<Class>(...).<property>`: a memoised property of an object the class hands out again for the same arguments keeps its
+            # value - and the objects in it - for every caller
+            k_ = prog.resolve(ia.module, dotted(e.value.func))
+            pr_ = prog.lookup(k_, e.attr) if hasattr(k_, "methods") else None
+            if pr_ is not None and pr_.kind == "lazyproperty":
+                shared_inst = prog.lookup(k_, "__new__") is not None or any(
+                    isinstance(x, ast.Attribute) and x.attr == "_instances" for x in ast.walk(k_.node))
+                if shared_inst:
+                    verdict = ("violation", "the Adjustment objects come from `%s`, a value memoised on a %s instance, and %s hands out one "
+                               "instance per type: every shape of the preset type gets the same Adjustment objects (copying the list does not "
+                               "copy them)" % (src_txt[:60], k_.name, k_.name))
+                    break
         if isinstance(e, ast.Subscript) and (dotted(e.value) or "").split(".")[0] in ("cls", "self", "AutoShapeType", "AdjustmentCollection", "Adjustment"):
             # the objects are taken out of a store that outlives the call (a class-level cache): every collection built from it holds
             # the same Adjustment objects
